@@ -14,7 +14,7 @@ from ..fold import DV, EV, ClsRef, Folder, FoldRaise, Unsupported
 from ..index import AnalysisError, parent
 from .c13 import stmt_of
 from .common import loc
-from .netio import (Endpoint, ScriptSock, TEAM_NAMES, call_in, card, contains_call, eval_in, fresh, hand_family,
+from .netio import (Endpoint, ScriptSock, TEAM_NAMES, call_in, card, contains_call, reach, eval_in, fresh, hand_family,
                     method_calls, new_folder, seats)
 
 
@@ -169,7 +169,8 @@ def run(chk):
     # dummy's hand: Server.playing_phase builder -> Client.playing_phase's parse_hand(parse_cards(.., <name>))
     _, spp = repo.method('Server', 'playing_phase', 'C19.R1')
     w_spp, q_spp = loc(repo, 'Server', 'playing_phase', 'C19.R1')
-    dh = [n for n in ast.walk(spp) if isinstance(n, ast.Call) and isinstance(n.func, ast.Attribute) and n.func.attr == 'hand_to_str']
+    spp_all = reach(repo, 'Server', 'playing_phase', 'C19.R1')       # the method and the helper methods it calls
+    dh = [n for n in ast.walk(spp_all) if isinstance(n, ast.Call) and isinstance(n.func, ast.Attribute) and n.func.attr == 'hand_to_str']
     chk.floor('C19.R1', 'dummy hand builder in Server.playing_phase', len(dh), 1)
     dexpr = dh[0]
     while isinstance(parent(dexpr), (ast.BinOp, ast.JoinedStr, ast.FormattedValue)):
@@ -177,7 +178,8 @@ def run(chk):
     harg = dh[0].args[0]
     _, cpp = repo.method('Client', 'playing_phase', 'C19.R1')
     w_cpp, q_cpp = loc(repo, 'Client', 'playing_phase', 'C19.R1')
-    pcs = [n for n in method_calls(cpp, 'parse_cards')]
+    cpp_all = reach(repo, 'Client', 'playing_phase', 'C19.R1')
+    pcs = [n for n in method_calls(cpp_all, 'parse_cards')]
     chk.floor('C19.R1', 'dummy hand reader in Client.playing_phase', len(pcs), 1)
     pc = pcs[0]
     ph = parent(pc)
@@ -248,7 +250,7 @@ def run(chk):
     w_sbp, q_sbp = loc(repo, 'Server', 'bidding_phase', 'C19.R2')
     _, cbp = repo.method('Client', 'bidding_phase', 'C19.R2')
     w_cbp, q_cbp = loc(repo, 'Client', 'bidding_phase', 'C19.R2')
-    cbm = [n for n in method_calls(cbp, 'create_bid_message')]
+    cbm = [n for n in method_calls(reach(repo, 'Client', 'bidding_phase', 'C19.R2'), 'create_bid_message')]
     chk.floor('C19.R2', 'call message builder call site in Client.bidding_phase', len(cbm), 1)
     bids = f.members('Bid')
     if len(bids) != 38:
@@ -299,8 +301,8 @@ def run(chk):
     # ------------------------------------------------------------------------------------------------------------------
     # R3 cards
     # ------------------------------------------------------------------------------------------------------------------
-    sends = [n for n in method_calls(cpp, 'send_message') if n.args and contains_call(n.args[0], 'card_str')]
-    chk.floor('C19.R3', 'card message builders in Client.playing_phase', len(sends), 2)
+    sends = [n for n in method_calls(cpp_all, 'send_message') if n.args and contains_call(n.args[0], 'card_str')]
+    chk.floor('C19.R3', 'card message builders in Client.playing_phase', len(sends), 1)
     cards = [card(f, r, s) for s in 'CDHS' for r in range(2, 15)]
     n_k = 0
     w_pc, q_pc = loc(repo, 'MessageInterface', 'parse_card', 'C19.R3')
